@@ -136,10 +136,20 @@ def _apply_holder_op(h, l):
     raise RuntimeError("bad op")
 
 
+core.NO_THREAD_OPS.update(range(1500, 1530))   # catch_warnings below swaps the process-wide filter list
+
+
 def impl(op, a):
     with warnings.catch_warnings():
         warnings.simplefilter("ignore")
         return _impl(op, a)
+
+
+def _strict(f):
+    """The typed accessors run with warnings escalated to errors (python -W error, pytest filterwarnings=error)."""
+    with warnings.catch_warnings():
+        warnings.simplefilter("error")
+        return f()
 
 
 def _impl(op, a):
@@ -153,7 +163,7 @@ def _impl(op, a):
         return [_opt(PduFactory.pdu_directive_type(bytes(a[0])))]
     if op == 1504:
         h = PduFactory.from_raw_to_holder(bytes(a[0]))
-        return _pdu_fields(getattr(h, TO[a[1][0]])())
+        return _pdu_fields(_strict(getattr(h, TO[a[1][0]])))
     if op == 1505:
         h = PduFactory.from_raw_to_holder(bytes(a[0]))
         return [_res_bytes(h.pack), [h.packet_len]]
@@ -161,12 +171,12 @@ def _impl(op, a):
         return _inspect(PduFactory.from_raw_to_holder(bytes(a[0])))
     if op == 1507:
         h = PduHolder(CLASSES[a[1][0]].unpack(bytes(a[0])))
-        return _pdu_fields(getattr(h, TO[a[2][0]])())
+        return _pdu_fields(_strict(getattr(h, TO[a[2][0]])))
     if op == 1508:
         h = PduHolder(CLASSES[a[1][0]].unpack(bytes(a[0])))
         return _inspect(h) + [[h.packet_len]]
     if op == 1509:
-        return _pdu_fields(getattr(PduHolder(None), TO[a[0][0]])())
+        return _pdu_fields(_strict(getattr(PduHolder(None), TO[a[0][0]])))
     if op == 1520:
         b1, b2 = a[0], a[1]
         if a[2] and a[2][0] == 1:
